@@ -34,7 +34,7 @@ def build(tier, only, chk):
                         src, extra = L.c19_tunnel(n, tscf, udp, fd, fixed)
                         us = dict(WALKER)
                         us.update({'recv.0': 1502, 'write.0': 80, 'new_packet.0': n + 2, 'harness.0': 70,
-                                   'harness.1': 70, 'harness.2': 70, 'harness.3': 70, 'vp_talker_build.0': n + 1})
+                                   'harness.1': 70, 'harness.2': 70, 'vp_talker_build.0': n + 1})
                         jobs.append(Job(name, src, LIB, incs=['examples'], extra_sources=extra, unwind=70, unwindset=us,
                                         timeout=1700, backend='cadical', mem_gb=(12 if n == 1 else 24),
                                         meta={'frames_per_packet': n, 'control_format': 'TSCF' if tscf else 'NTSCF',
@@ -42,6 +42,33 @@ def build(tier, only, chk):
                                               'lengths_of_leading_frames': list(fixed) or 'n/a',
                                               'domain': 'all ids incl. EFF/RTR, all data, all FD flags, arbitrary transmit buffer; '
                                                         'length of the last frame symbolic 0..%d' % (64 if fd else 8)}))
+    # ---- scaled model (guarded hook shrinks the listener's receive buffer; the wire buffer shrinks with it):
+    # ALL frame lengths symbolic, which the 1500-byte buffers do not permit for more than one frame
+    for n in ((2, 3) if tier == 'quick' else (2, 3, 4)):
+        for tscf in (0, 1):
+            for udp in (0, 1):
+                for fd in (0, 1):
+                    size = 28 + n * (16 + (64 if fd else 8))
+                    size = (size + 15) // 16 * 16
+                    if tier == 'quick' and (fd or n > 2):
+                        continue          # quick: classic frames, 2 per packet; the rest needs minutes and > 16 GB
+                    if fd and n > 2:
+                        continue
+                    name = 'c19.tunnel.%s.%s.%s.n%d.scaled%d' % ('tscf' if tscf else 'ntscf', 'udp' if udp else 'raw',
+                                                                'fd' if fd else 'classic', n, size)
+                    if only and not any(o in name for o in only.split(',')):
+                        continue
+                    src, extra = L.c19_tunnel(n, tscf, udp, fd, ())
+                    us = dict(WALKER)
+                    us.update({'recv.0': size + 2, 'write.0': 80, 'new_packet.0': n + 2, 'harness.0': 70, 'harness.1': 70,
+                               'harness.2': 70, 'vp_talker_build.0': n + 1})
+                    jobs.append(Job(name, src, LIB, incs=['examples'], extra_sources=extra, unwind=70, unwindset=us,
+                                    timeout=2400, backend='cadical', mem_gb=(16 if (n == 2 and not fd) else 36),
+                                    defines=['VP_DG_MAX=%d' % size, 'COVESA_OPEN1722_VERIF_MAX_PDU_SIZE=%d' % size],
+                                    meta={'frames_per_packet': n, 'control_format': 'TSCF' if tscf else 'NTSCF',
+                                          'transport': 'UDP' if udp else 'raw', 'variant': 'FD' if fd else 'classic',
+                                          'scaled_buffers': size, 'hook': 'COVESA_OPEN1722_VERIF_MAX_PDU_SIZE',
+                                          'domain': 'ALL frame lengths symbolic, all ids/flags/data'}))
     return jobs
 
 
@@ -55,6 +82,7 @@ def run(tier, only=None):
         'update_cf_length) re-stated in the wrapper around the unmodified source; the listener side is new_packet()',
         'clock fixed (the message timestamp does not reach the CAN frame); modes concrete per query',
         'frames per packet: 1 (all lengths symbolic) and 2 (thorough: 3) with the lengths of all but the last frame enumerated concretely (symbolic offsets into the 1500-byte buffers exhaust memory: measured 40 GB); more frames add no new code path',
+        'scaled runs: the guarded hook COVESA_OPEN1722_VERIF_MAX_PDU_SIZE shrinks the listener receive buffer (and the wire buffer with it) to just fit n maximal frames; then ALL frame lengths are symbolic for 2 and 3 (thorough 4) frames per packet',
         'FDF: the CAN FD variant is a property of the tunnel configuration (--fd on both sides), CANFD_FDF in '
         'canfd_frame.flags is ignored by the kernel on write; compared flags are BRS and ESI']
     return chk.finish(
